@@ -660,8 +660,8 @@ fn run_front(front: Front, case: &Case, out: &mut Outcome) {
 
 // ---------------------------------------------------------------------------
 
-/// the last five have empty components or a '/': ids are keys verbatim, whatever file the source maps them to
-const IDS: [&str; 14] = ["a", "b", "c", "a_n", "d.a", "d.b", "d.e.a", "d_n", "zz", ".a", "a.", "d..a", "d/a", "a/"];
+/// the last six have empty components or a '/' or are longer than 32 bytes: ids are keys verbatim, whatever file the source maps them to
+const IDS: [&str; 15] = ["a", "b", "c", "a_n", "d.a", "d.b", "d.e.a", "d_n", "zz", ".a", "a.", "d..a", "d/a", "a/", "d.e.a_long_identifier_of_more_than_thirty_two_bytes"];
 const DIR_IDS: [&str; 5] = ["", "d", "d.e", "g", "nodir"];
 
 fn t_loadable() -> impl Strategy<Value = T> {
@@ -739,7 +739,7 @@ impl Prop for C02 {
          load, load_owned, get_cached, get_or_insert, contains, remove, take, clear, load_dir, load_rec_dir on types A1, A2 (same extension), \
          CP (compound loading A1(id), A2(id_n) and peeking S1(id)), S1 (Storable), RE (a compound that get_or_inserts its own key while loading: the first insertion must win)). Every sequence is run on six front-ends, the AssetCache ones constructed under a CPU affinity of 1/2/3/5/6/7/12 CPUs or unchanged (shard count) \
          (AssetCache without reloader, its AnyCache view, AssetCache with a live reloader, its AnyCache view, LocalAssetCache, its AnyCache view) and every return value \
-         plus a final contains/get_cached scan over all ids x types is compared with a BTreeMap reference model. Ids include three with empty components (.a, a., d..a) and two with a '/' (d/a, a/): keys are verbatim. Notify(id): on the two front-ends with a live reloader the source announces a change of id's file \
+         plus a final contains/get_cached scan over all ids x types is compared with a BTreeMap reference model. Ids include three with empty components (.a, a., d..a) two with a '/' (d/a, a/) and one of 51 bytes: keys are verbatim. Notify(id): on the two front-ends with a live reloader the source announces a change of id's file \
          (content unchanged) and the reloads are awaited behind a sentinel; when only plain assets / storables are cached nothing may change (full scan), otherwise the model adopts the cache's state. Enumerated part: every sequence up to the length bound over a 2-id alphabet. \
          non-trivial = a remove/take/clear after an insertion on the same id, or two types inserted under one id; distinct = different canonical JSON"
             .into()
